@@ -79,6 +79,17 @@ def trick_contracts(ctx, P) -> None:
     def calls(p):
         return [(e.extra.get("func"), e.extra.get("args") or [], e.extra.get("kwargs") or {}) for e in p.evs if e.kind == "call"]
 
+    def callback_restarts(cb: str) -> bool:
+        """the debouncer's callback restarts the command once per batch: a lambda around self._restart_process(), or a method of the
+        trick every path of which calls it exactly once"""
+        if "self._restart_process" in cb:
+            return True
+        m_ = re.fullmatch(r"self\.(\w+)", cb)
+        if m_ and m_.group(1) in A.methods and m_.group(1) not in CONTRACT:
+            mps = [p for p in Enumerator(cfg).run(A.methods[m_.group(1)], selfcls="AutoRestartTrick")]
+            return bool(mps) and all(p.outcome[0] != "raise" and sum(1 for e in p.evs if e.kind == "call" and e.extra.get("func") == "self._restart_process") == 1 for p in mps)
+        return False
+
     # ---- start
     fi, ps = paths("start")
     for p in ps:
@@ -89,7 +100,7 @@ def trick_contracts(ctx, P) -> None:
         ok, why = True, ""
         if iv is True:
             ctor = [(a, k) for f, a, k in cs if f == "EventDebouncer"]
-            good_ctor = len(ctor) == 1 and ctor[0][1].get("debounce_interval_seconds") == "self.debounce_interval_seconds" and "self._restart_process" in ctor[0][1].get("events_callback", "")
+            good_ctor = len(ctor) == 1 and ctor[0][1].get("debounce_interval_seconds") == "self.debounce_interval_seconds" and callback_restarts(ctor[0][1].get("events_callback", ""))
             if not (len(deb) == 1 and deb[0].extra.get("value", "").startswith("EventDebouncer(") and good_ctor):
                 ok, why = False, "an interval is set but no EventDebouncer(debounce_interval_seconds=the interval, events_callback -> _restart_process) is stored"
             elif "self.event_debouncer.start" not in fs:
